@@ -47,7 +47,7 @@ class SCfg:
         self.cap = 16 if self.backing == "fcv16" else None   # FixedCapacityVector backed FlatSet
         self.flat = self.kind == "FS"
         self.transp = self.cmp == "transp"
-        self.has_extract_pos = self.backing != "std"
+        self.has_extract_pos = True
         self.instrumented = self.cat != "int"
         # the comparator of the temporary set used by merge_other
         self.other_key = _KEYS["less"] if self.cmp == "greater" else _KEYS["greater"]
